@@ -335,6 +335,21 @@ def splice_fn(ntext, spec, fname):
                 edits.append((inpos, ' ' + G_OPEN + itername + ':' + G_CLOSE, 0))
             edits.append((lopen, '\n' + '\n'.join('\x00G' + l for l in lines) + '\n', 1))
 
+    # --- closure contracts: n-th closure literal in the body gets ` -> (r: T) requires/ensures ..` after its `|params|`
+    if spec.get('closures'):
+        cl = find_closures(ntext, bopen + 1, bclose)
+        for n, lines in spec['closures'].items():
+            if n >= len(cl):
+                raise ExtractError('lost-anchor', '%s: closure #%d not found (%d closures)' % (fname, n, len(cl)))
+            pend = cl[n]
+            j = pend
+            while ntext[j].isspace():
+                j += 1
+            txt = ' ' + G_OPEN + ' '.join(l.strip() for l in lines) + ' ' + G_CLOSE
+            if ntext[j] != '{':
+                raise ExtractError('unsupported', '%s: closure #%d has an expression body; a contract needs a block body' % (fname, n))
+            edits.append((pend, txt, 0))
+
     # --- statement anchors (line based)
     for anchor, lines, where in spec.get('anchors', []):
         # candidate line starts inside the body
@@ -362,6 +377,50 @@ def splice_fn(ntext, spec, fname):
         else:
             res.append((ln, False))
     return res
+
+
+def find_closures(s, start, end):
+    """Offsets just after the closing `|` of each closure parameter list in s[start:end], in source order."""
+    out = []
+    i = start
+    prev = '{'      # previous significant code char
+    prevword = ''
+    while i < end:
+        kind, a, b = rs.next_code(s, i, end)
+        if kind in ('ws', 'comment'):
+            i = b
+            continue
+        if kind in ('string', 'char'):
+            prev = 'x'
+            prevword = ''
+            i = b
+            continue
+        c = s[i]
+        if c.isalnum() or c == '_':
+            m = re.match(r'\w+', s[i:end])
+            prevword = m.group(0)
+            prev = 'x'
+            i += len(prevword)
+            continue
+        if c == '|' and (prev in '(,={;' or prevword in ('move', 'return')) and not s.startswith('|=', i):
+            if s.startswith('||', i):
+                out.append(i + 2)
+                i += 2
+            else:
+                j = i + 1
+                while j < end and s[j] != '|':
+                    if s[j] in '([':
+                        j = rs.match_close(s, j)
+                    j += 1
+                out.append(j + 1)
+                i = j + 1
+            prev = 'x'
+            prevword = ''
+            continue
+        prev = c
+        prevword = ''
+        i += 1
+    return out
 
 
 def strip_ghost(lines):
@@ -537,7 +596,7 @@ def build_unit(template, repo, variant='A'):
                 header = None
                 text, it = idx.find_item(rel, 'fn', name)
             outname = kw.get('as', name)
-            spec = {'ret': None, 'spec_lines': [], 'loops': {}, 'entry': [], 'anchors': []}
+            spec = {'ret': None, 'spec_lines': [], 'loops': {}, 'entry': [], 'anchors': [], 'closures': {}}
             section = None
             i += 1
             start_tno = tno
@@ -560,6 +619,10 @@ def build_unit(template, repo, variant='A'):
                     elif d2 == 'loop':
                         lines = []
                         spec['loops'][int(p2[0])] = (k2.get('iter'), lines)
+                        section = lines
+                    elif d2 == 'closure':
+                        lines = []
+                        spec['closures'][int(p2[0])] = lines
                         section = lines
                     elif d2 in ('before', 'after'):
                         lines = []
@@ -589,6 +652,7 @@ def build_unit(template, repo, variant='A'):
                 spec['entry'] = []
                 spec['loops'] = {}
                 spec['anchors'] = []
+                spec['closures'] = {}
                 fnpos, bopen, bclose = _sig_body(nt)
                 nt = nt[:bopen] + '{ unimplemented!() }'
             spliced = splice_fn(nt, spec, outname)
